@@ -142,6 +142,22 @@ CLAIMED = {
         'and the CRC check are assumed total. Not covered: pn531/pn533/rcs956/acr122/arygon specific overrides, udp, '
         'listen-mode TT3 path, the status-to-class mapping clause beyond class membership.',
    technique='contract-based deductive verification: raises-clauses, modular over the C14 command contract (pyvc)'),
+ 'C18': dict(
+   category='proof',
+   text='sense(): for every pair (and single) of targets of every kind and every driver outcome (target, None, '
+        'UnsupportedTargetError, CommunicationError, ValueError): with several targets nothing is raised, the result is '
+        'the first target found in argument order, self.target is None at every driver call and equals the result at '
+        'exit, the field is muted first and again when nothing was found; a non-RemoteTarget argument raises ValueError '
+        'before any driver call. listen()/exchange(): the captured target is exactly what the call returned and the '
+        'exchange direction follows its kind. One activation (_rdwr_connect, _card_connect) with a ghost event log: '
+        'callbacks in the order discover, connect, release; on-release exactly once iff on-connect returned true; the '
+        'documented return values. connect(): TypeError iff an option is not a dict; None when no option survives '
+        'on-startup.',
+   design_ref='DESIGN.md section 5 (C18)',
+   note='Driver, tag activation/emulation are environment models/assumed contracts; callbacks return documented types; '
+        'the activation loop over several iterations, _llcp_connect ordering and "ends promptly" (time) are not covered; '
+        'driver I/O faults are C13.',
+   technique='contract-based deductive verification: ghost event log + postconditions (pyvc)'),
 }
 
 NOT_APPLICABLE = {}
